@@ -28,7 +28,7 @@ func init() {
 		Assumptions: []string{"generic instantiations are not distinguished (the generic body is analysed once)", "container/list behaves as documented"},
 		Tech:        "static analysis: lock-state dataflow, structural pairing (must-pass-through both ways), guarded-by-condition and per-implementation Admit-populates-what-Access/Remove-index contract on the SSA of the generic bodies",
 		NeedU1:      true,
-		Rules:       []func(*Ctx){ruleC15Lock, ruleC15Bijection, ruleC15Bounded, ruleC15CallbackExactlyOnce, ruleC15AdmitRegisters, ruleC15RegistrationFollowsSegment, ruleC15SegmentFlagFollowsList, ruleC15ListEndsNonEmpty, ruleC15NoReentry, ruleC15RemoveUnlinks, ruleC15RelinkIsAMove, ruleC15ElementRecorded, ruleC15SegmentMoveConserves, ruleC15RemovalNotifies, ruleC15VictimNonNil, ruleC15SetStoresValue, ruleC15SetStampsExpiration, ruleC15ExpirationWrittenOnlyBySet, ruleC15ValuesAreOpaque, ruleC15ReflectAccessorMatchesKind, ruleC15CallbackBoundAtBuild, ruleC15VictimNotEmptyHanded, ruleC15UnlinkBeforeNotify, ruleC15VictimEnd, ruleC15AccessRefreshes, ruleC15SegmentOpsMatchFlag, ruleC15LFUOrderedList, ruleC15ExpiryEvicts, ruleC15LFUBucket, ruleC15LFUBucketImmutable, ruleC15LookupUseAtomic, ruleC15PolicySelection, ruleC15EventLoopLockFree, lockBalancedRule("C15", 8, lockDomSpec{pkgCache, "cache", "mux"}), noWriteToNilledMapRule("C15", pkgCache), nilContradictionRule("C15", false, "github.com/godaddy/asherah/go/appencryption/pkg/cache"), ruleC15FilterGeometryFixed, ruleC15LFUNoEmptyBucket, ruleC15PromotionFlagBeforeRebalance, ruleC15PolicyCapacityIsTheConfigured, ruleC15GetOrPanicGoesThroughGet, ruleC15LFUAdmitStartsAtOne},
+		Rules:       []func(*Ctx){ruleC15Lock, ruleC15Bijection, ruleC15Bounded, ruleC15CallbackExactlyOnce, ruleC15AdmitRegisters, ruleC15RegistrationFollowsSegment, ruleC15SegmentFlagFollowsList, ruleC15ListEndsNonEmpty, ruleC15NoReentry, ruleC15RemoveUnlinks, ruleC15RelinkIsAMove, ruleC15ElementRecorded, ruleC15SegmentMoveConserves, ruleC15RemovalNotifies, ruleC15VictimNonNil, ruleC15SetStoresValue, ruleC15SetStampsExpiration, ruleC15ExpirationWrittenOnlyBySet, ruleC15ValuesAreOpaque, ruleC15ReflectAccessorMatchesKind, ruleC15CallbackBoundAtBuild, ruleC15VictimNotEmptyHanded, ruleC15UnlinkBeforeNotify, ruleC15VictimEnd, ruleC15AccessRefreshes, ruleC15SegmentOpsMatchFlag, ruleC15LFUOrderedList, ruleC15ExpiryEvicts, ruleC15LFUBucket, ruleC15LFUBucketImmutable, ruleC15LookupUseAtomic, ruleC15PolicySelection, ruleC15EventLoopLockFree, lockBalancedRule("C15", 8, lockDomSpec{pkgCache, "cache", "mux"}), noWriteToNilledMapRule("C15", pkgCache), nilContradictionRule("C15", false, "github.com/godaddy/asherah/go/appencryption/pkg/cache"), ruleC15FilterGeometryFixed, ruleC15LFUNoEmptyBucket, ruleC15PromotionFlagBeforeRebalance, ruleC15PolicyCapacityIsTheConfigured, ruleC15GetOrPanicGoesThroughGet, ruleC15LFUAdmitStartsAtOne, ruleC15ListHandleBelongsToItsItem},
 	})
 }
 
@@ -450,8 +450,14 @@ func registersOnAllPaths(u *Universe, g *ssa.Function, itemParam int, target str
 			}
 		case *ssa.Store:
 			if target == "parent" {
-				if fa, ok := x.Addr.(*ssa.FieldAddr); ok && fieldName(fa.X.Type(), fa.Field) == "parent" && strip(fa.X) == item {
-					return true
+				if fa, ok := x.Addr.(*ssa.FieldAddr); ok && fieldName(fa.X.Type(), fa.Field) == "parent" {
+					if strip(fa.X) == item {
+						return true
+					}
+					// item is the wrapper here: the parent of the item embedded in it
+					if wb, wf, isW := fieldAccess(strip(fa.X)); isW && wf == "cacheItem" && strip(wb) == item {
+						return true
+					}
 				}
 			}
 		}
@@ -465,7 +471,16 @@ func registersOnAllPaths(u *Universe, g *ssa.Function, itemParam int, target str
 		args := callArgs(cc)
 		for k, a := range args {
 			if strip(a) != item {
-				continue
+				// a wrapper literal around the item, handed to a helper of the package
+				wrapped := false
+				if al := allocOf(a); al != nil && !cc.IsInvoke() {
+					if fv, has := litFields(al)["cacheItem"]; has && strip(fv) == item {
+						wrapped = true
+					}
+				}
+				if !wrapped {
+					continue
+				}
 			}
 			if cc.IsInvoke() {
 				// another policy's Admit registers item.parent (checked for every implementation by this same rule)
@@ -871,12 +886,13 @@ func ruleC15SegmentFlagFollowsList(c *Ctx) {
 	u := c.U1
 	c.rule("C15.segment-flag-follows-list", "in every method of slru each PushFront/PushBack of an item onto probationList (protectedList) travels with that item's protected flag being false (true): a literal created with it, or a store on the same paths", 3)
 	n := 0
-	for _, f := range u.RepoFuncs {
-		if f.Signature.Recv() == nil || !typeIsNamed(f.Signature.Recv().Type(), pkgCache, "slru") {
+	for _, ps := range policyPushSites(u) {
+		if ps.push.Parent().Signature.Recv() == nil || !typeIsNamed(ps.push.Parent().Signature.Recv().Type(), pkgCache, "slru") {
 			continue
 		}
-		allInstrs(f, func(i ssa.Instruction) {
-			cv, ok := i.(*ssa.Call)
+		ps := ps
+		eval := func(f *ssa.Function, i ssa.Instruction, pushed ssa.Value) (good, applies bool, construct, listField string, want bool) {
+			cv, ok := ps.push.(*ssa.Call)
 			if !ok || cv.Call.StaticCallee() == nil {
 				return
 			}
@@ -884,20 +900,16 @@ func ruleC15SegmentFlagFollowsList(c *Ctx) {
 			if fn != "(*container/list.List).PushFront" && fn != "(*container/list.List).PushBack" {
 				return
 			}
-			_, listField, isF := fieldAccess(cv.Call.Args[0])
-			if !isF || (listField != "probationList" && listField != "protectedList") {
+			_, lf, isF := fieldAccess(cv.Call.Args[0])
+			if !isF || (lf != "probationList" && lf != "protectedList") {
 				return
 			}
-			want := listField == "protectedList"
-			n++
-			c.CallSites++
+			listField = lf
+			want = listField == "protectedList"
+			applies = true
 			c.FuncsAnalysed[shortName(f)] = true
-			construct := trimPkgDirs(shortName(f)) + "/push-" + listField
-			item := cv.Call.Args[1]
-			if mi, isMI := item.(*ssa.MakeInterface); isMI {
-				item = mi.X
-			}
-			good := false
+			construct = trimPkgDirs(shortName(f)) + "/push-" + listField
+			item := pushed
 			// created by a literal with the right flag
 			if a := allocOf(item); a != nil {
 				if fv, has := litFields(a)["protected"]; has {
@@ -924,8 +936,26 @@ func ruleC15SegmentFlagFollowsList(c *Ctx) {
 					}
 				})
 			}
+			return
+		}
+		report := func(good bool, construct, listField string, want bool, i ssa.Instruction) {
+			n++
+			c.CallSites++
 			c.check(good, construct, u.ipos(i), fmt.Sprintf("item.protected = %v travels with the insertion", want), fmt.Sprintf("an item is linked into the %s without its protected flag being set to %v on the same paths: Access/Remove then address the other list (container/list ignores foreign elements), the item is never unlinked — repeated eviction callbacks for it, size drifts, the map outgrows its capacity", listField, want))
-		})
+		}
+		good, applies, construct, listField, want := eval(ps.fn, ps.at, ps.v)
+		switch {
+		case !applies:
+		case good || len(ps.alts) == 0:
+			report(good, construct, listField, want, ps.at)
+		default:
+			for _, alt := range ps.alts {
+				if g2, a2, c2, l2, w2 := eval(alt.fn, alt.at, alt.v); a2 {
+					report(g2, c2, l2, w2, alt.at)
+				}
+			}
+		}
+
 	}
 	if n == 0 {
 		c.bad("slru/pushes", "", "no list insertions found in slru")
